@@ -36,6 +36,8 @@ from .noninterf import CORE_MODS
 SERVER_MODS = ('clastic.server', 'clastic._werkzeug_serving')
 LONG_LIVED_BASES = [('clastic.middleware.core', 'Middleware'), ('clastic.application', 'Application'), ('clastic.application', 'SubApplication'),
                     ('clastic.route', 'Route'), ('clastic.route', 'BoundRoute'), ('clastic.errors', 'ErrorHandler')]
+# (module in whose namespace the class is known, name there): the entry denotes the *definition* that name resolves to -- the
+# class statement itself, wherever in the package it is written (it may live in another module and be imported back)
 SHARED_BY_DESIGN = {
     ('clastic.middleware.stats', 'Reservoir'): 'sampling reservoir of the statistics middleware: aggregates across requests by design',
     ('clastic.middleware.stats', 'StatsMiddleware'): 'route_hits counters: shared by design (the middleware exists to aggregate across requests)',
@@ -142,6 +144,7 @@ class Ring(object):
         self.classes = [c for m in self.mods for c in m.classes.values()]
         self._mro = {}
         self._ctor_only = {}
+        self._design = None
         self.long_lived = self._long_lived()
 
     def mro(self, ci):
@@ -264,11 +267,28 @@ class Ring(object):
                         changed = True
         return ll
 
+    def design_classes(self):
+        """{ClassInfo: reason} -- the definitions the table of classes that are shared by design names: each entry is
+        resolved in the namespace of the module it mentions (``repo.resolve`` follows an import to the class statement)."""
+        if self._design is None:
+            self._design = {}
+            for (mn, cn), why in SHARED_BY_DESIGN.items():
+                m = self.repo.try_mod(mn)
+                if m is None or m.external:
+                    continue
+                try:
+                    kind, m_, obj = self.repo.resolve(m, cn)
+                except Exception:
+                    continue
+                if kind == 'class' and isinstance(obj, ClassInfo) and not obj.mod.external:
+                    self._design[obj] = why
+        return self._design
+
     def by_design(self, ci):
-        for (mn, cn), why in SHARED_BY_DESIGN.items():
-            for b in self.mro(ci):
-                if isinstance(b, ClassInfo) and b.mod.name == mn and b.name == cn:
-                    return why
+        table = self.design_classes()
+        for b in self.mro(ci):
+            if isinstance(b, ClassInfo) and b in table:
+                return table[b]
         return None
 
     # -- which functions ---------------------------------------------------------------------------------------------------
